@@ -24,6 +24,7 @@ func init() {
 			ruleFreelistCountConvention(c, "C09.R3")
 			c09R4(c, "C09.R4")
 			c09R5(c, "C09.R5")
+			ruleFreelistNoAlias(c, "C09.R6")
 		},
 		CHA: func(c *Ctx) { ruleFreeSetEntry(c, "C09.R1") },
 	})
@@ -296,6 +297,30 @@ func c09R5(c *Ctx, id string) {
 				}
 			}
 			c.check(id+":freelist.(*"+tn+").Init:resets-own-fields", ini, ini.Pos(), fmt.Sprintf("Init assigns every storage field declared on *%s (%d fields) on every path: a re-initialised backend does not depend on its previous content", tn, n), bad == "" && n > 0, bad)
+		}
+	})
+}
+
+// ruleFreelistNoAlias: the in-memory free list never aliases a page. The ids handed to Init / NoSyncReload
+// must be a private copy: the array backend keeps the slice and later compacts it in place, and a page is
+// either read-only mapped memory (fault) or a buffer that is about to be reused.
+func ruleFreelistNoAlias(c *Ctx, id string) {
+	c.rule(id, "free-list-does-not-alias-pages", 3, func() {
+		n := 0
+		for _, fn := range append(c.P.FnsIn(freelistPath), c.P.FnsIn(rootPkg)...) {
+			for _, ci := range callsIn(fn, "freelist.Interface.Init", "freelist.Interface.NoSyncReload") {
+				n++
+				bad := ""
+				for _, l := range provenance(ci.Common().Args[0], provOpts{ThroughCall: throughAll}) {
+					if l.Kind == "call" && (l.Name == "common.(*Page).FreelistPageIds" || l.Name == "bbolt.(*DB).page" || l.Name == "bbolt.(*Tx).page" || l.Name == "builtin:Slice") {
+						bad = "the id list derives from " + l.Name + " (memory of a page)"
+					}
+					if l.Kind == "field" && (l.Name == "data" || strings.HasSuffix(l.Name, ".data")) {
+						bad = "the id list derives from the mapping"
+					}
+				}
+				c.check(fmt.Sprintf("%s:%s:%s#%d", id, shortFn(fn), calleeOf(ci).Name(), n), fn, ci.Pos(), "the id list given to the free list is private memory (a copy, a scan result or the backend's own list), never a view of a page", bad == "", bad)
+			}
 		}
 	})
 }
